@@ -23,6 +23,6 @@ clang-14 $CFLAGS $INC -c $H/scen/scen.c -o $OUT/obj/scen.o & pids="$pids $!"
 clang-14 $CFLAGS $INC -I$H/rt -c $H/rt/wrap.c -o $OUT/obj/wrap.o & pids="$pids $!"
 for p in $pids; do wait $p; done
 NS=""; for s in $SRCS time_rep once common; do NS="$NS $OUT/obj/$s.o"; done
-WRAP=""; for f in nsync_mu_lock nsync_mu_unlock nsync_mu_rlock nsync_mu_runlock nsync_mu_trylock nsync_cv_signal nsync_cv_broadcast nsync_note_notify nsync_cv_wait_with_deadline nsync_mu_wait nsync_wait_n; do WRAP="$WRAP -Wl,--wrap=$f"; done
+WRAP=""; for f in nsync_mu_lock nsync_mu_unlock nsync_mu_rlock nsync_mu_runlock nsync_mu_trylock nsync_cv_signal nsync_cv_broadcast nsync_note_notify nsync_cv_wait_with_deadline nsync_mu_wait nsync_wait_n nsync_waiter_new_ nsync_waiter_free_; do WRAP="$WRAP -Wl,--wrap=$f"; done
 clang-14 $WRAP -o $OUT/vfh $NS $OUT/obj/vf.o $OUT/obj/scen.o $OUT/obj/wrap.o
 clang-14 $WRAP -o $OUT/vfh_futex $NS $OUT/objf/futex.o $OUT/objf/vf.o $OUT/obj/scen.o $OUT/obj/wrap.o
